@@ -12,6 +12,7 @@ import (
 	"strconv"
 	"sync"
 	"testing"
+	"time"
 
 	"github.com/Query-farm/vgi-rpc-go/vgirpc"
 	"github.com/apache/arrow-go/v18/arrow"
@@ -571,6 +572,7 @@ func runC35(c c35Case) (out lib.Outcome) {
 	// ---- malformed / displaced pointers ----
 	extraK, extraV := metaWithout(wire.Meta, lib.KShmOffset, lib.KShmLength)
 	overflowTried := false
+	var triedBefore []string
 	for _, p := range c.Ptrs {
 		os_, ls, hl := p.render(size, off, n, o2, l2)
 		verdict := classifyPointer(os_, ls, hl, size, off, n)
@@ -588,7 +590,13 @@ func runC35(c c35Case) (out lib.Outcome) {
 		pb := pointerBatch(wire.Rec, extraK, extraV, os_, ls, hl)
 		var r2 arrow.RecordBatch
 		var e2 error
-		if pn := guard(func() { r2, _, _, e2 = vgirpc.ResolveShmBatch(pb, att) }); pn != "" {
+		pn, hung := guardTimed(func() { r2, _, _, e2 = vgirpc.ResolveShmBatch(pb, att) })
+		if hung {
+			out.Violate("C35/resolve-never-returns", "ResolveShmBatch did not return within %v on offset %q length %q (pointers tried before it on this attachment: %v)", c35ResolveBudget, os_, ls, triedBefore)
+			return
+		}
+		triedBefore = append(triedBefore, p.Kind)
+		if pn != "" {
 			out.Violate(lib.Keyf("C35", "resolve-panic", p.Kind), "ResolveShmBatch panicked on offset %q length %q (segment %d bytes, region %d+%d): %s", os_, ls, size, off, n, lib.Short(pn, 400))
 			return
 		}
@@ -628,6 +636,28 @@ func runC35(c c35Case) (out lib.Outcome) {
 		}
 	}
 
+	// ---- the valid pointer still resolves after whatever was tried ----
+	if len(c.Ptrs) > 0 {
+		var r3 arrow.RecordBatch
+		var e3 error
+		pn, hung := guardTimed(func() { r3, _, _, e3 = vgirpc.ResolveShmBatch(wireRec, att) })
+		switch {
+		case hung:
+			out.Violate("C35/resolve-never-returns", "ResolveShmBatch of the valid pointer did not return within %v after the pointers %v had been tried on the attachment", c35ResolveBudget, triedBefore)
+			return
+		case pn != "":
+			out.Violate(lib.Keyf("C35", "resolve-panic", "valid-after-malformed"), "valid pointer panicked after %v: %s", triedBefore, lib.Short(pn, 300))
+			return
+		case e3 != nil:
+			out.Violate("C35/valid-pointer-refused-on-repeat", "valid pointer refused after %v had been tried: %v", triedBefore, e3)
+			return
+		}
+		if d := lib.BatchDiff(orig.Rec, r3); d != "" {
+			out.Violate("C35/valid-pointer-differs-on-repeat", "read after the malformed pointers differs: %s", d)
+			return
+		}
+	}
+
 	// ---- release ----
 	if ferr := att.FreeOffset(relOff); ferr != nil {
 		out.Violate("C35/free-after-resolve", "FreeOffset(%d) after resolving: %v", relOff, ferr)
@@ -638,6 +668,22 @@ func runC35(c c35Case) (out lib.Outcome) {
 	}
 	out.NonTrivial = shape == "nested" || shape == "both" || overflowTried
 	return
+}
+
+// c35ResolveBudget bounds one ResolveShmBatch call: it reads at most a few MiB
+// from memory, so not returning for this long means it is stuck, not slow.
+const c35ResolveBudget = 60 * time.Second
+
+// guardTimed runs f like guard, and gives up waiting after c35ResolveBudget.
+func guardTimed(f func()) (panicked string, hung bool) {
+	done := make(chan string, 1)
+	go func() { done <- guard(f) }()
+	select {
+	case p := <-done:
+		return p, false
+	case <-time.After(c35ResolveBudget):
+		return "", true
+	}
 }
 
 var propC35 = lib.Prop[c35Case]{
